@@ -84,55 +84,62 @@ func (r *rwRT) ruleOracles() {
 	}
 	// ---- isCallStmtOf
 	{
-		fn := r.method("rewriter", "isCallStmtOf")
-		c.fn(relName(fn))
-		pos := r.w.FnPos(fn)
+		// decided at the two predicates the passes use (isYieldCall / isYieldFromCall); how they share their
+		// implementation (a common helper taking the callee, a classification of the callee, ...) is representation
 		var err error
-		target := Sym{Name: "obj:callee", NN: true, Uniq: true}
-		type tc struct {
-			name   string
-			build  func(st *State) AV
-			callee AV
-			want   bool
-		}
-		mkCallStmt := func(x func(st *State) AV) func(st *State) AV {
-			return func(st *State) AV { _, n := r.heapNode(st, "ExprStmt", map[string]AV{"X": x(st)}); return n }
-		}
-		call := func(st *State) AV {
-			_, n := r.heapNode(st, "CallExpr", map[string]AV{"Fun": exprLeaf(r, "f")})
-			return n
-		}
-		paren := func(st *State) AV { _, n := r.heapNode(st, "ParenExpr", map[string]AV{"X": call(st)}); return n }
-		cases := []tc{
-			{"statement that is a call of the callee", mkCallStmt(call), target, true},
-			{"statement that is a call of another function", mkCallStmt(call), Sym{Name: "obj:other", NN: true, Uniq: true}, false},
-			{"parenthesised call statement", mkCallStmt(paren), target, false},
-			{"go statement", func(st *State) AV {
-				_, n := r.heapNode(st, "GoStmt", map[string]AV{"Call": unwrap(call(st))})
+		var pos string
+		for _, pred := range []struct{ name, field, other string }{{"isYieldCall", "r.yieldFunc", "r.yieldFromFunc"}, {"isYieldFromCall", "r.yieldFromFunc", "r.yieldFunc"}} {
+			fn := r.method("rewriter", pred.name)
+			c.fn(relName(fn))
+			pos = r.w.FnPos(fn)
+			target := Sym{Name: "obj:callee", NN: true, Uniq: true}
+			type tc struct {
+				name   string
+				build  func(st *State) AV
+				callee AV
+				want   bool
+			}
+			mkCallStmt := func(x func(st *State) AV) func(st *State) AV {
+				return func(st *State) AV { _, n := r.heapNode(st, "ExprStmt", map[string]AV{"X": x(st)}); return n }
+			}
+			call := func(st *State) AV {
+				_, n := r.heapNode(st, "CallExpr", map[string]AV{"Fun": exprLeaf(r, "f")})
 				return n
-			}, target, false},
-			{"assignment", func(st *State) AV { _, n := r.heapNode(st, "AssignStmt", map[string]AV{}); return n }, target, false},
-		}
-		for _, t := range cases {
-			st := newState()
-			n := t.build(st)
-			in := r.interp(rwConfig{root: fn})
-			callee := t.callee
-			in.OnCall = wrapOnCall(in.OnCall, func(cc *CallCtx) []Answer {
-				if cc.Fn != nil && cc.Fn.Name() == "Callee" {
-					return []Answer{{Ret: []AV{callee}, NoEvent: true}}
-				}
-				return nil
-			})
-			outs := in.Run(st, fn, []AV{Sym{Name: "r", NN: true}, Sym{Name: "pkg", NN: true}, n, target}, nil)
-			r.account(in)
-			for _, o := range outs {
-				if o.Panicked || len(o.Ret) != 2 {
-					err = fmt.Errorf("%s: panics", t.name)
-					continue
-				}
-				if b, ok := asBool(o.Ret[1]); !ok || b != t.want {
-					err = fmt.Errorf("%s: answers %v, expected %v", t.name, o.Ret[1], t.want)
+			}
+			paren := func(st *State) AV { _, n := r.heapNode(st, "ParenExpr", map[string]AV{"X": call(st)}); return n }
+			cases := []tc{
+				{"statement that is a call of the callee", mkCallStmt(call), target, true},
+				{"statement that is a call of another function", mkCallStmt(call), Sym{Name: "obj:other", NN: true, Uniq: true}, false},
+				{"parenthesised call statement", mkCallStmt(paren), target, false},
+				{"go statement", func(st *State) AV {
+					_, n := r.heapNode(st, "GoStmt", map[string]AV{"Call": unwrap(call(st))})
+					return n
+				}, target, false},
+				{"assignment", func(st *State) AV { _, n := r.heapNode(st, "AssignStmt", map[string]AV{}); return n }, target, false},
+			}
+			for _, t := range cases {
+				st := newState()
+				n := t.build(st)
+				in := r.interp(rwConfig{root: fn, inlineAll: true, noOracles: true})
+				in.Fields[pred.field] = target
+				in.Fields[pred.other] = Sym{Name: "obj:the other API function", NN: true, Uniq: true}
+				callee := t.callee
+				in.OnCall = wrapOnCall(in.OnCall, func(cc *CallCtx) []Answer {
+					if cc.Fn != nil && cc.Fn.Name() == "Callee" {
+						return []Answer{{Ret: []AV{callee}, NoEvent: true}}
+					}
+					return nil
+				})
+				outs := in.Run(st, fn, []AV{Sym{Name: "r", NN: true}, Sym{Name: "pkg", NN: true}, n}, nil)
+				r.account(in)
+				for _, o := range outs {
+					if o.Panicked || len(o.Ret) != 2 {
+						err = fmt.Errorf("%s: %s: panics", pred.name, t.name)
+						continue
+					}
+					if b, ok := asBool(o.Ret[1]); !ok || b != t.want {
+						err = fmt.Errorf("%s: %s: answers %v, expected %v", pred.name, t.name, o.Ret[1], t.want)
+					}
 				}
 			}
 		}
@@ -312,6 +319,23 @@ func flippedToTrue(before, after *State, clo AV) bool {
 			continue
 		}
 		ob, oa := before.heap[r.ID], after.heap[r.ID]
+		if ob != nil && oa != nil && ob.Kind == 's' {
+			// a method value: the flag is a field of the receiver
+			for k, fa := range oa.Fields {
+				va, ka := asBool(fa)
+				vb, kb := asBool(ob.Fields[k])
+				if ob.Fields[k] == nil {
+					vb, kb = false, true
+				}
+				if _, isZ := ob.Fields[k].(Zero); isZ {
+					vb, kb = false, true
+				}
+				if ka && kb && va && !vb {
+					return true
+				}
+			}
+			continue
+		}
 		if ob == nil || oa == nil || ob.Kind != 'c' {
 			continue
 		}
